@@ -1,6 +1,7 @@
 import Fuota.Drv.D3
 import Fuota.Drv.D1
 import Fuota.Drv.D2
+import Fuota.Drv.D4
 import Fuota.Drv.D5
 /-! Line-protocol driver: one query per input line, one canonical answer per output line.
     Imports the model files only (no Mathlib), so it links as a native executable.
@@ -10,6 +11,7 @@ namespace Drv
 structure St where
   d1 : D1.S := {}
   d5 : D5.S := {}
+  d4 : D4.S := {}
 
 def step (st : St) (line : String) : St × String :=
   let toks := line.trimAscii.toString.splitOn " "
@@ -22,6 +24,9 @@ def step (st : St) (line : String) : St × String :=
   | none =>
   match D1.step st.d1 toks with
   | some (s, o) => ({ st with d1 := s }, o)
+  | none =>
+  match D4.step st.d4 toks with
+  | some (s, o) => ({ st with d4 := s }, o)
   | none =>
   match D5.step st.d5 toks with
   | some (s, o) => ({ st with d5 := s }, o)
